@@ -1,7 +1,7 @@
 use crate::runtime::error::state_error;
 use crate::runtime::list::{access_with_integer, access_with_symbol};
 use crate::runtime::utilities::*;
-use garnish_lang_traits::{Extents, GarnishData, GarnishDataType, GarnishNumber, Instruction, RuntimeError, SymbolListPart, TypeConstants};
+use garnish_lang_traits::{ErrorType, Extents, GarnishData, GarnishDataType, GarnishNumber, Instruction, RuntimeError, SymbolListPart, TypeConstants};
 use log::trace;
 
 pub fn apply<Data: GarnishData>(this: &mut Data) -> Result<Option<Data::Size>, RuntimeError<Data::Error>> {
@@ -140,22 +140,34 @@ fn apply_internal<Data: GarnishData>(this: &mut Data, instruction: Instruction, 
             let mut current = left_addr.clone();
             while let Some(part) = iter.next() {
                 match part {
+                    // a step that finds nothing, or reaches a value that cannot be looked into with this kind of key
+                    // (`(:b = 5,) <~ (:b . 0)`), ends the path with unit instead of failing the instruction
                     SymbolListPart::Symbol(sym) => {
-                        match access_with_symbol(this, sym, current)? {
-                            None => {
+                        match access_with_symbol(this, sym, current.clone()) {
+                            Ok(Some(i)) => current = i,
+                            Ok(None) => {
                                 current = this.add_unit()?;
                                 break;
                             }
-                            Some(i) => current = i,
+                            Err(e) if e.get_type() == ErrorType::UnsupportedOpTypes => {
+                                current = this.add_unit()?;
+                                break;
+                            }
+                            Err(e) => Err(e)?,
                         }
                     },
                     SymbolListPart::Number(num) => {
-                        match access_with_integer(this, num, current)? {
-                            None => {
+                        match access_with_integer(this, num, current.clone()) {
+                            Ok(Some(i)) => current = i,
+                            Ok(None) => {
                                 current = this.add_unit()?;
                                 break;
                             }
-                            Some(i) => current = i,
+                            Err(e) if e.get_type() == ErrorType::UnsupportedOpTypes => {
+                                current = this.add_unit()?;
+                                break;
+                            }
+                            Err(e) => Err(e)?,
                         }
                     }
                 };
